@@ -1,4 +1,4 @@
-import CotengraVerif.Lemmas.BmmMain
+import CotengraVerif.Lemmas.Tensordot
 
 /-!
 # C11 — cotengra's matmul-based einsum and tensordot agree with the reference
@@ -396,5 +396,154 @@ theorem perm_is_perm (lc : Bool) (sz : Ix → Nat) (aT bT out : List Ix) (hout :
           have htn : bT.Nodup := nodup_of_sameSet hdn hss.2 hlen
           exact isPermOf_map_idxOf htn hdn hss.2 hss.1
         · cases hp
+
+
+/-! ## tensordot -/
+
+theorem getD_one_pos {l : List Nat} (h : ∀ d ∈ l, 0 < d) (k : Nat) : 0 < l.getD k 1 := by
+  rw [List.getD_eq_getElem?_getD]
+  cases hk : l[k]? with
+  | none => simp
+  | some v => exact h v (List.mem_of_getElem? hk)
+
+theorem getD_default {l : List Nat} {k : Nat} (hk : k < l.length) (d1 d2 : Nat) :
+    l.getD k d1 = l.getD k d2 := by
+  simp [List.getD_eq_getElem?_getD, List.getElem?_eq_getElem hk]
+
+/-- two duplicate-free label lists whose shared labels carry equal dimensions admit one positive
+    size per label -/
+theorem consistent_sizes {A B : List Ix} {shA shB : List Nat} (hAn : A.Nodup) (hBn : B.Nodup)
+    (hAl : A.length = shA.length) (hBl : B.length = shB.length)
+    (hposA : ∀ d ∈ shA, 0 < d) (hposB : ∀ d ∈ shB, 0 < d)
+    (hsh : ∀ j (hj : j < B.length), B[j] ∈ A →
+      ∃ x, ∃ hx : x < A.length, A[x] = B[j] ∧ shA.getD x 0 = shB.getD j 0) :
+    ∃ sz : Ix → Nat, (∀ i, 0 < sz i) ∧ shA = A.map sz ∧ shB = B.map sz := by
+  refine ⟨fun i => if A.contains i then shA.getD (A.idxOf i) 1
+      else if B.contains i then shB.getD (B.idxOf i) 1 else 1, ?_, ?_, ?_⟩
+  · intro i
+    simp only
+    split
+    · exact getD_one_pos hposA _
+    · split
+      · exact getD_one_pos hposB _
+      · exact Nat.one_pos
+  · apply List.ext_getElem (by simp [hAl])
+    intro x h1 h2
+    have hxA : x < A.length := by rw [hAl]; exact h1
+    simp only [List.getElem_map]
+    have hc : A.contains A[x] = true := by simpa using List.getElem_mem hxA
+    rw [if_pos hc, idxOf_getElem_nodup hAn hxA, List.getD_eq_getElem?_getD,
+      List.getElem?_eq_getElem h1]
+    rfl
+  · apply List.ext_getElem (by simp [hBl])
+    intro j h1 h2
+    have hjB : j < B.length := by rw [hBl]; exact h1
+    simp only [List.getElem_map]
+    by_cases hm : B[j] ∈ A
+    · obtain ⟨x, hx, hxe, hd⟩ := hsh j hjB hm
+      have hc : A.contains B[j] = true := by simpa using hm
+      have hidx : A.idxOf B[j] = x := by rw [← hxe]; exact idxOf_getElem_nodup hAn hx
+      rw [if_pos hc, hidx, getD_default (by rw [← hAl]; exact hx) 1 0, hd,
+        List.getD_eq_getElem?_getD, List.getElem?_eq_getElem h1]
+      rfl
+    · have hc : A.contains B[j] = false := by simpa using hm
+      have hinB : B.contains B[j] = true := by simpa using List.getElem_mem hjB
+      rw [if_neg (by rw [hc]; simp), if_pos hinB, idxOf_getElem_nodup hBn hjB,
+        List.getD_eq_getElem?_getD, List.getElem?_eq_getElem h1]
+      rfl
+
+/-- **tensordot_eq_wellformed** — for equally many distinct in-range axes whose dimensions match,
+    `_parse_tensordot_axes_to_matmul` builds a well-formed equation `A,B->O`: the labels `A` of `a`
+    are distinct; position `j` of `b` carries the label of the axis of `a` it is contracted with if
+    `j` is a contracted axis and a label that `a` does not have otherwise; `B` and `O` are
+    duplicate-free, `O` only uses labels of the operands; and the shapes are consistent with one
+    positive size per label. -/
+theorem tensordot_eq_wellformed (axesA axesB shA shB : List Nat)
+    (h : AxesOK axesA axesB shA.length shB.length)
+    (hdim : ∀ k < axesB.length, shA.getD (axesA.getD k 0) 0 = shB.getD (axesB.getD k 0) 0)
+    (hposA : ∀ d ∈ shA, 0 < d) (hposB : ∀ d ∈ shB, 0 < d) :
+    ∃ A B O, tensordotEq (.pair axesA axesB) shA shB = some (A, B, O) ∧
+      A = (List.range shA.length).map niceInd ∧ A.Nodup ∧ B.Nodup ∧ B.length = shB.length ∧
+      O.Nodup ∧ (∀ o ∈ O, o ∈ A ∨ o ∈ B) ∧
+      (∀ j, j < shB.length → j ∈ axesB →
+        B.getD j 0 = A.getD (axesA.getD (axesB.idxOf j) 0) 0) ∧
+      (∀ j, j < shB.length → j ∉ axesB → B.getD j 0 ∉ A) ∧
+      ∃ sz : Ix → Nat, (∀ i, 0 < sz i) ∧ shA = A.map sz ∧ shB = B.map sz := by
+  have hdim' : ∀ m < shB.length, axesB.contains m = true →
+      shA.getD (axesA.getD (axesB.idxOf m) 0) 0 = shB.getD m 0 := by
+    intro m _ hm
+    have hmB : m ∈ axesB := by simpa using hm
+    have hlt := List.idxOf_lt_length_of_mem hmB
+    have := hdim _ hlt
+    rw [this, List.getD_eq_getElem?_getD (l := axesB), List.getElem?_eq_getElem hlt]
+    simp [List.getElem_idxOf hlt]
+  obtain ⟨B, O, c, hloop, hB, hBn, hOn, hOs⟩ := tdLoop_spec (shA := shA) (shB := shB) h hdim'
+  have hguard : (axesA.all (· < shA.length) && axesB.all (· < shB.length)) = true := by
+    simp only [Bool.and_eq_true, List.all_eq_true, decide_eq_true_eq]
+    exact ⟨h.rA, h.rB⟩
+  have hBlen : B.length = shB.length := by rw [hB]; simp
+  have hlab : ∀ j, j < shB.length → B.getD j 0
+      = tdLabel ((List.range shA.length).map niceInd) axesA axesB shA.length j := by
+    intro j hj
+    rw [hB, List.getD_eq_getElem?_getD, List.getElem?_eq_getElem (by simpa using hj)]
+    simp
+  refine ⟨_, B, O, ?_, rfl, niceInds_nodup _, hBn, hBlen, hOn, hOs, ?_, ?_, ?_⟩
+  · simp only [tensordotEq, h.len, bne_self_eq_false, Bool.false_eq_true, ↓reduceIte, hguard,
+      Bool.not_true, hloop]
+  · intro j hj hjB
+    rw [hlab j hj]
+    simp only [tdLabel, List.contains_iff_mem, hjB, ↓reduceIte, lblA]
+  · intro j hj hjB hmem
+    rw [hlab j hj] at hmem
+    have hc : axesB.contains j = false := by simpa using hjB
+    simp only [tdLabel, hc, Bool.false_eq_true, ↓reduceIte] at hmem
+    have := mem_niceInds.1 hmem
+    omega
+  · -- one size per label
+    apply consistent_sizes (niceInds_nodup _) hBn (by simp) hBlen hposA hposB
+    intro j hj hmem
+    have h1 : j < shB.length := by rw [← hBlen]; exact hj
+    have hBj : B[j] = tdLabel ((List.range shA.length).map niceInd) axesA axesB shA.length j := by
+      have := hlab j h1
+      rw [List.getD_eq_getElem?_getD, List.getElem?_eq_getElem hj] at this
+      simpa using this
+    by_cases hc : axesB.contains j = true
+    · have hjm : j ∈ axesB := by simpa using hc
+      have hax := axa_lt h hjm
+      refine ⟨axesA.getD (axesB.idxOf j) 0, by simpa using hax, ?_, hdim' j h1 hc⟩
+      rw [hBj]
+      simp only [tdLabel, hc, ↓reduceIte]
+      rw [lblA_eq h hjm]
+      simp
+    · exfalso
+      have hc' : axesB.contains j = false := by simpa using hc
+      rw [hBj] at hmem
+      simp only [tdLabel, hc', Bool.false_eq_true, ↓reduceIte] at hmem
+      have := mem_niceInds.1 hmem
+      omega
+
+/-- **tensordot_plan_sound** — for every valid axes pair (distinct, in range, matching positive
+    dimensions) and all arrays: the equation of `_parse_tensordot_axes_to_matmul` is planned by the
+    code *at HEAD* (no guard needed: neither operand repeats a label) and the plan evaluates,
+    every step being defined, to the einsum of that equation — i.e. to `tensordot(a, b, axes)` by
+    `tensordot_eq_wellformed`. -/
+theorem tensordot_plan_sound (axesA axesB : List Nat) (a b : FArr)
+    (h : AxesOK axesA axesB a.shape.length b.shape.length)
+    (hdim : ∀ k < axesB.length,
+      a.shape.getD (axesA.getD k 0) 0 = b.shape.getD (axesB.getD k 0) 0)
+    (hposA : ∀ d ∈ a.shape, 0 < d) (hposB : ∀ d ∈ b.shape, 0 < d) :
+    ∃ A B O plan r, tensordotEq (.pair axesA axesB) a.shape b.shape = some (A, B, O) ∧
+      parseBmm false A B O a.shape b.shape = some plan ∧ evalPlan plan a b = some r ∧
+      r.shape = (einsum2 A B O a b).shape ∧
+      ∀ idx, inRange idx r.shape = true → r.get idx = (einsum2 A B O a b).get idx := by
+  obtain ⟨A, B, O, h1, _, hAn, hBn, _, hOn, hOs, _, _, sz, hpos, hsa, hsb⟩ :=
+    tensordot_eq_wellformed axesA axesB a.shape b.shape h hdim hposA hposB
+  obtain ⟨plan, r, h2, h3, h4, h5⟩ :=
+    head_plan_sound_nodup sz hpos A B O hOn hOs hAn hBn a b hsa hsb
+  exact ⟨A, B, O, plan, r, h1, h2, h3, h4, h5⟩
+
+/-- non-vacuity: `tensordot(a(2,3,4), b(4,5,3), axes=((2,1),(0,2)))` -/
+example : tensordotEq (.pair [2, 1] [0, 2]) [2, 3, 4] [4, 5, 3]
+    = some ([97, 98, 99], [99, 100, 98], [97, 100]) := by decide
 
 end Cotengra.C11
